@@ -77,6 +77,22 @@ def bad_conditional_division(a, b):
     return a / b if a > 0 else 0.0
 
 
+def ok_with_lock(x):
+    with LOCK:
+        y = x + 1
+    return y * 2
+
+
+def bad_with_other_manager(x):
+    with OTHER:
+        return x
+
+
+def bad_with_file(x):
+    with open('f') as fh:
+        return x
+
+
 def bad_string_result(x):
     return 'x'
 
@@ -89,7 +105,8 @@ EXPECT = {
     'ok_raise': ('F', '.error "ValueError"'),
     'bad_loop': ('I', None), 'bad_while': ('I', None), 'bad_unknown_call': ('F', None),
     'bad_recursion': ('I', None), 'bad_falls_off': ('F', None), 'bad_starargs': ('', None),
-    'bad_list': ('F', None), 'bad_string_result': ('F', None),
+    'bad_list': ('F', None), 'bad_string_result': ('F', None), 'bad_with_file': ('F', None),
+    'ok_with_lock': ('F', 'let y : Rat :='), 'bad_with_other_manager': ('F', None),
     'ok_conditional_division_guarded': ('FF', 'then a else (a / b))'),
     'bad_conditional_division': ('FF', None),
 }
